@@ -393,6 +393,19 @@ pub fn gen_stmt(r: &mut Rng, known: &Known) -> Stmt {
             }
             if c.is_empty() { None } else { Some(r.pick(&c).clone()) }
         };
+        // a chain of 3-5 `same_as` links over existing Concepts (and Concepts of this block): what the
+        // hop-quantified path patterns of the C18 battery walk; later statements archive / tombstone a
+        // middle link or an endpoint (the generic ARCHIVE / TOMBSTONE arm picks Propositions and Concepts)
+        if known.concepts.len() + hs.iter().filter(|h| h.1 == 'C').count() >= 3 && r.chance(1, 9) {
+            let len = 3 + r.usize(3);
+            let mut nodes: Vec<Ref> = Vec::new();
+            for _ in 0..=len { if let Some((c, _)) = concept_ref(r, &hs, None) { if nodes.last() != Some(&c) { nodes.push(c); } } }
+            for w2 in nodes.windows(2) {
+                let h = if r.chance(1, 3) { let h = next_h; next_h += 1; hs.push((h, 'P', 0)); Some(h) } else { None };
+                clauses.push(Clause::En { h, s: w2[0].clone(), p: 7, o: w2[1].clone(), expect: None, bad: false });
+            }
+            if nodes.len() >= 2 { continue; }
+        }
         // MERGE CONCEPT: mostly two existing unmerged Concepts; sometimes itself, a merged one (refused:
         // already merged elsewhere / no-op: same target / cycle), a non-Concept, a handle of this block
         if known.concepts.len() >= 2 && r.chance(1, 14) {
